@@ -3,6 +3,7 @@ package ast
 import (
 	"fmt"
 	"math/rand"
+	"strconv"
 	"strings"
 )
 
@@ -20,6 +21,7 @@ type Gen struct {
 	// one in IllTyped typed positions is filled with an arbitrary expression (0 = default 10)
 	IllTyped int
 
+	NoFloat bool // no float literals among the numeric leaves
 	scope   [][]string
 	nvar    int
 	inLoop  int
@@ -82,7 +84,17 @@ func (g *Gen) varsOf(t string) []string {
 func (g *Gen) pick(xs []string) string { return xs[g.R.Intn(len(xs))] }
 func (g *Gen) chance(n int) bool       { return g.R.Intn(n) == 0 }
 
-func Int(v int) N             { return N{"k": "int", "v": v} }
+func Int(v int) N { return N{"k": "int", "v": v} }
+
+// Float is the literal with value n8/8 (n8 >= 0); Lang.tla computes with eighths.
+func Float(n8 int) N {
+	t := strconv.FormatFloat(float64(n8)/8, 'f', -1, 64)
+	if !strings.Contains(t, ".") {
+		t += ".0"
+	}
+	return N{"k": "float", "text": t, "n8": n8}
+}
+
 func Bool(v bool) N           { return N{"k": "bool", "v": v} }
 func Str(s string) N          { return N{"k": "str", "v": Cps(s)} }
 func Id(n string) N           { return N{"k": "id", "n": n} }
@@ -135,7 +147,11 @@ func (g *Gen) texpr(d int, want string) N {
 		if d <= 0 || g.chance(3) {
 			return g.leafOf("int")
 		}
-		switch g.R.Intn(12) {
+		switch g.R.Intn(14) {
+		case 12:
+			return Call(Id("float"), g.texpr(d-1, "int"))
+		case 13:
+			return Call(Id("int"), g.texpr(d-1, "int"))
 		case 0, 1, 2, 3:
 			op := g.pick([]string{"+", "-", "*", "/", "%", "+", "-", "*", "&", "<<", ">>", "**"})
 			a := g.texpr(d-1, "int")
@@ -334,6 +350,9 @@ func (g *Gen) leafOf(t string) N {
 	}
 	switch t {
 	case "int":
+		if !g.NoFloat && g.chance(9) {
+			return Float([]int{4, 12, 2, 16, 20, 6, 1, 8, 0, 24, 36}[g.R.Intn(11)])
+		}
 		return Int(g.R.Intn(9) - 2)
 	case "bool":
 		return Bool(g.chance(2))
